@@ -3,10 +3,93 @@
 use crate::exec::ExecOut;
 use crate::plan::*;
 
-pub fn self_compose(_plan: &Plan, out: ExecOut) -> (ExecOut, Option<Violation>, Vec<Level>) {
+/// C17 self-composition: the same plan with every secret byte (keys, contexts, inputs) swapped
+/// must print identical Debug text and leave secret-independent memory behind zeroize().
+pub fn self_compose(plan: &Plan, out: ExecOut) -> (ExecOut, Option<Violation>, Vec<Level>) {
+    let mut pb = plan.clone();
+    pb.cfg.secret_xor = if plan.cfg.secret_xor == 0 { 0x5A } else { 0 };
+    let ob = crate::exec::exec(&pb);
+    if let Some(mut v) = ob.violation.clone() {
+        v.detail = format!("[secrets swapped] {}", v.detail);
+        return (ob, Some(v), vec![]);
+    }
+    if ob.harness_error.is_some() {
+        return (ob, None, vec![]);
+    }
+    let a_owned = out.stats.blobs.clone();
+    let a = &a_owned;
+    let b = &ob.stats.blobs;
+    let mk = |class: &str, i: usize, detail: String| Violation {
+        property: plan.prop.clone(),
+        class: class.into(),
+        task: a.get(i).map_or(0, |x| x.0),
+        op: 0,
+        op_kind: if class == "leak-debug" { "DebugFmt".into() } else { "Zeroize".into() },
+        detail,
+    };
+    if a.len() != b.len() {
+        return (out, None, vec![]); // different skips: nothing comparable (never the case for generated plans)
+    }
+    for (i, (x, y)) in a.iter().zip(b.iter()).enumerate() {
+        if x.2 != y.2 {
+            continue;
+        }
+        if x.1 == 0 {
+            if x.3 != y.3 {
+                let d = format!(
+                    "Debug output depends on the secrets: {:?} vs {:?}",
+                    String::from_utf8_lossy(&x.3),
+                    String::from_utf8_lossy(&y.3)
+                );
+                return (out, Some(mk("leak-debug", i, d)), vec![]);
+            }
+        } else {
+            let (qa, qb) = (&x.4, &y.4);
+            let mut run = 0;
+            for k in 0..qa.len().min(qb.len()) {
+                if qa[k] != qb[k] {
+                    run += 1;
+                    if run >= 8 {
+                        let d = format!("{}: memory after zeroize() still depends on the secrets at object offset {}", x.2, k + 1 - 8);
+                        return (out, Some(mk("leak-zeroize", i, d)), vec![]);
+                    }
+                } else {
+                    run = 0;
+                }
+            }
+        }
+    }
     (out, None, vec![])
 }
 
-pub fn solo(_plan: &Plan, out: ExecOut) -> (ExecOut, Option<Violation>, Vec<Level>) {
+/// C18: every task's results under interleaving must equal its results when run alone.
+pub fn solo(plan: &Plan, out: ExecOut) -> (ExecOut, Option<Violation>, Vec<Level>) {
+    for (ti, t) in plan.tasks.iter().enumerate() {
+        let mut p = plan.clone();
+        p.tasks = vec![t.clone()];
+        p.schedule = Schedule::Explicit { choices: vec![] };
+        let so = crate::exec::exec(&p);
+        if let Some(mut v) = so.violation.clone() {
+            // the program fails even alone: not an isolation matter, but still a wrong result
+            v.task = ti;
+            v.detail = format!("[task run alone] {}", v.detail);
+            return (so, Some(v), vec![]);
+        }
+        if so.harness_error.is_some() {
+            return (so, None, vec![]);
+        }
+        if so.op_digests[0] != out.op_digests[ti] {
+            let oi = so.op_digests[0].iter().zip(out.op_digests[ti].iter()).position(|(a, b)| a != b).unwrap_or(0);
+            let v = Violation {
+                property: plan.prop.clone(),
+                class: "not-isolated".into(),
+                task: ti,
+                op: oi,
+                op_kind: t.ops[oi].kind().into(),
+                detail: format!("task {ti} op {oi} returned a different result under interleaving than when run alone"),
+            };
+            return (out, Some(v), vec![]);
+        }
+    }
     (out, None, vec![])
 }
